@@ -135,9 +135,14 @@ def observe(case, expected, rng):
         decoded.append({'present': False, 'v': fkey.value_record(0)})
     except Exception as e:  # pylint: disable=broad-except
       decoded.append({'present': False, 'v': fkey.value_record(0), 'error': type(e).__name__})
+  # slack of the unit interval = what the arithmetic can resolve: a log-scaled range of relative width 3e-7 at |log x| ~ 70
+  # is resolved by float64 to 2.2e-16 * 70 / 3e-7 ~ 5e-8 of the unit interval (seed 11 hit 4.7e-8 with a slack of 1e-8)
+  cls = case['shape'].get('cls') if isinstance(case.get('shape'), dict) else None
+  fine = 1e-6 if (cls and cls.get('width') == 'narrow' and cls.get('st') != 'LINEAR') else 1e-8
+  slack = 1e-4 if case['dtype'] == 'float32' else fine
   return {'case': case, 'expected': expected, 'refused': False, 'ncols': int(feats.shape[1]), 'rows': rows, 'decoded': decoded,
           'param': fkey.space_record(sp)[0], 'zero': fkey.key(0.0), 'one': fkey.key(1.0),
-          'lo01': fkey.key(-(1e-4 if case['dtype'] == 'float32' else 1e-8)), 'hi01': fkey.key(1.0 + (1e-4 if case['dtype'] == 'float32' else 1e-8))}
+          'lo01': fkey.key(-slack), 'hi01': fkey.key(1.0 + slack)}
 
 
 
